@@ -8,7 +8,9 @@
 From Coq Require Import List ZArith NArith Bool Lia.
 From BBS Require Import Common.Sx Buffer.Source Buffer.Validate Buffer.Convert Buffer.ErrHandler
   Buffer.ConvertProofs Buffer.EHFullCarry Buffer.EHFullPrefix
-  Buffer.EHNest Buffer.EHNestCarry Buffer.EHNestRules Run.R09 Run.R16 Run.R16N Run.R16NProofs.
+  Buffer.C09FuelSuffices Buffer.EHNest Buffer.EHNestCarry Buffer.EHNestRules
+  Buffer.EHNestMoreRet Buffer.EHNestMoreRoot Buffer.EHNestMoreMon Buffer.EHNestMoreFuel Buffer.EHNestMoreDone
+  Buffer.EHNestMoreTop Run.R09 Run.R16 Run.R16N Run.R16NProofs.
 Import ListNotations.
 
 (** No duplicated and no skipped range, trees of any depth: when every plain
@@ -80,15 +82,80 @@ Theorem whole_operation_retries_nested : forall H cfg fuel m t,
 Proof. intros H cfg fuel m. exact (proj1 (whole_rules H cfg fuel m)). Qed.
 Print Assumptions whole_operation_retries_nested.
 
-(** The monitor on the model's own observation.  Full statement:
-      forall inp, dom16N inp -> mon16N inp (run16N inp) = [].
-    Proved for the clauses 1 (Done), 3 (no dup / no skip on completion), 4
-    (offering rule), 7 (prefix); clause 2 (the outermost handler's error is the
-    consumer's result) is not covered by a theorem. *)
-Theorem monitor_on_model_partial : forall inp,
-  dom16N inp -> forall c, In c (mon16N inp (run16N inp)) -> c = 2%Z.
-Proof. exact mon16N_on_model. Qed.
-Print Assumptions monitor_on_model_partial.
+(** Done() exactly once to every handler that exists, INDEPENDENTLY of the
+    offering rule and of any well-formedness of the scripts: every tree, every
+    method, any fuel; and the observed tree is no deeper than the input tree
+    (Buffer/EHNestMoreDone.v). *)
+Theorem done_once_nested : forall H cfg fuel t m,
+  od1 (z_tree (run_tree H cfg fuel t m)) = true /\
+  (odepth (z_tree (run_tree H cfg fuel t m)) <= tdepth t)%nat.
+Proof. exact run_tree_done_once. Qed.
+Print Assumptions done_once_nested.
+
+(** FUEL: [16 + tree_fuel t], the fuel [run16N] uses, suffices
+    (Buffer/EHNestMoreFuel.v): for every tree, digest, hash function and every
+    method with positive loop parameters the run neither ends in the
+    out-of-fuel marker nor offers it to any handler at any depth ([noEF] of the
+    observed tree).  Monotone in the fuel. *)
+Theorem tree_fuel_suffices : forall H cfg fuel t m,
+  (16 + tree_fuel t <= fuel)%nat -> good_param m = true ->
+  z_err (run_tree H cfg fuel t m) <> EFuel /\ noEF (z_tree (run_tree H cfg fuel t m)) = true.
+Proof. exact EHNestMoreFuel.tree_fuel_suffices. Qed.
+Print Assumptions tree_fuel_suffices.
+
+(** Clause 2 on the model (Buffer/EHNestMoreRet.v, EHNestMoreRoot.v): when the
+    last answer of the OUTERMOST handler was the error [x], the consumer's
+    result is [ECode x] - every method, every tree, any fuel that does not run
+    out; for ToReader: or the validator's own error code (next theorem). *)
+Theorem outermost_handler_error_is_result_nested : forall H cfg fuel inner ans m,
+  z_err (run_tree H cfg fuel (NW inner ans) m) <> EFuel ->
+  match z_tree (run_tree H cfg fuel (NW inner ans) m) with
+  | ONode offs _ _ =>
+      forall x, returnedN ans (length offs) = Some x ->
+        z_err (run_tree H cfg fuel (NW inner ans) m) = ECode x \/
+        (is_to_reader m = true /\ z_err (run_tree H cfg fuel (NW inner ans) m) = ECode (g_code cfg))
+  | OLeaf _ => True
+  end.
+Proof. exact run_tree_clause2. Qed.
+Print Assumptions outermost_handler_error_is_result_nested.
+
+(** REFUTATION of "the monitor is silent on the model for every input of
+    [dom16N]": clause 2 of [mon16N] fires on the model's own observation for
+    [w2_inp] (notes/c16n-clause2-false-alarm.case; replayed on the real code:
+    the implementation's observation is the model's).  ToReader with one read of 8
+    bytes on WithErrorHandler(chunk-reader buffer "ab" + error 4, handler
+    answering 7), digest size 1: the chunk-reader-backed reader hands out "ab"
+    together with the error, the handler turns it into 7, and the
+    casValidatingReader rejects 2 bytes against a size of 1 before it looks at
+    the error: the consumer gets 13 (INTERNAL), not 7.  C16's monitor excepts
+    this situation ([toolong], Run/R16.v); C16N's does not: a false alarm of
+    the monitor's clause 2. *)
+Theorem monitor_clause_2_fires_on_the_model :
+  dom16N w2_inp /\ mon16N w2_inp (run16N w2_inp) = [2%Z].
+Proof. split; [exact w2_in_domain|exact (proj2 clause2_fires_on_the_model)]. Qed.
+Print Assumptions monitor_clause_2_fires_on_the_model.
+
+(** The monitor on the model's own observation, WITHOUT fuel or depth
+    hypotheses on the run ([dom16NF], Buffer/EHNestMoreTop.v: every plain buffer
+    carries the object, readers that attach EOF to data have clean scripts,
+    the buffer handed to the consumer is wrapped, positive loop parameters, no
+    handler is offered the gRPC code -3 (the code of the model's fuel marker; the
+    harness's scripts use codes 1..16), positive final error code, input tree
+    of depth <= 64): no clause other than 2 fires ... *)
+Theorem monitor_on_model_all_but_clause_2 : forall inp,
+  dom16NF inp -> forall c, In c (mon16N inp (run16N inp)) -> c = 2%Z.
+Proof. exact mon16N_on_model_fuel. Qed.
+Print Assumptions monitor_on_model_all_but_clause_2.
+
+(** ... and none at all unless the method is ToReader and the run ends in the
+    validator's own error code (the situation of the refutation above). *)
+Theorem monitor_silent_on_model_nested : forall inp,
+  dom16NF inp ->
+  (is_to_reader (n_meth (dec_case16N inp)) = true ->
+   z_err (out16N inp) <> ECode (g_code (n_cfg (dec_case16N inp)))) ->
+  mon16N inp (run16N inp) = [].
+Proof. exact mon16N_silent_on_model_fuel. Qed.
+Print Assumptions monitor_silent_on_model_nested.
 
 (** * Non-vacuity.  The shrunk witness of seeded change C16-c (corpus/C16N):
     WithErrorHandler(WithErrorHandler(stream failing after 2 bytes, h1), h0);
@@ -99,11 +166,12 @@ Definition ex_inp : sx := L [A 0; L [A 2; L [A 0; A 0; A 0; A 1; A 0; A 0; A 0; 
 Definition ex_obs_seeded : sx := L [L [A 98; A 99; A 98; A 99]; A 3; L [A 3]; L []; L []; L [A 1; L []; A 1; L [L [A 1; L [A 6]; A 1; L [L [A 0; A 1]; L [A 1; L [A 6]; A 1; L [L [A 0; A 1]; L [A 0; A 1]]]]]]]].
 Definition ex_obs_model : sx := L [L [A 98; A 99; A 99; A 98]; A 3; L [A 3]; L []; L []; L [A 1; L []; A 1; L [L [A 1; L [A 6]; A 1; L [L [A 0; A 1]; L [A 1; L [A 6]; A 1; L [L [A 0; A 1]; L [A 0; A 1]]]]]]]].
 
-Example ex_in_domain : dom16N ex_inp.
+Example ex_in_domain : dom16NF ex_inp.
 Proof.
-  unfold dom16N. repeat match goal with |- _ /\ _ => split end.
+  unfold dom16NF. repeat match goal with |- _ /\ _ => split end.
   - vm_compute. reflexivity.
   - vm_compute. exact I.
+  - vm_compute. reflexivity.
   - vm_compute. reflexivity.
   - intros x E. vm_compute in E. inversion E. lia.
   - apply Nat.leb_le. vm_compute. reflexivity.
